@@ -1,9 +1,11 @@
 //! wwcheck — property-based checks for white-whale-core. See /verif/DESIGN.md.
 
 mod engine;
+mod mocks;
 mod pools;
 mod props;
 mod refmath;
+mod vaults;
 mod world;
 
 use engine::{load_known, replay_property, run_property, RunEnv, Tier};
